@@ -26,9 +26,13 @@ Local Opaque BabyJub.modinv BabyJub.modsqrt BabyJub.Mul BabyJub.Affine BabyJub.P
    fails at once on a mismatch whereas conversion may first try to normalise. *)
 Local Ltac same :=
   cbv zeta;
-  lazymatch goal with
-  | |- ?a = ?b => first [ constr_eq a b | fail 1 "generated code and hand model differ" ]
-  end; reflexivity.
+  first [ lazymatch goal with |- ?a = ?b => constr_eq a b end; reflexivity
+        | (* the same code up to boolean spelling: `if !c {A} else {B}` for `if c {B} else {A}`,
+             an early `return false` for a conjunction, ... (the heavy functions are Opaque here,
+             so the conversion below stays cheap) *)
+          rewrite ?Bool.if_negb; cbv beta iota zeta delta [andb orb];
+          rewrite ?Bool.if_negb; timeout 20 reflexivity
+        | fail 1 "generated code and hand model differ" ].
 
 Lemma gen_babyjub_Point_InCurve_eq : forall p,
   babyjub_Point_InCurve p = BabyJub.InCurve p.
@@ -43,7 +47,8 @@ Proof.
   intros p. unfold babyjub_Point_InSubGroup, BabyJub.InSubGroup.
   rewrite gen_babyjub_Point_InCurve_eq.
   destruct (negb (BabyJub.InCurve p)); [reflexivity|].
-  destruct (BabyJub.Mul BabyJub.SubOrder p) as [rx ry]. reflexivity.
+  destruct (BabyJub.Mul BabyJub.SubOrder p) as [rx ry]. cbn [fst snd].
+  first [ reflexivity | destruct (rx =? CurveConsts.Zero); reflexivity ].
 Qed.
 
 (* ---- every lemma above is closed under the global context ---------------- *)
